@@ -96,10 +96,12 @@ def generate(rng, tier, n):
     # optional breaks, and problems WITH RELATIONS (derived from a solution of the same problem: e2e.gen_relation_problems, solved
     # here by the c12 binary)
     brng, rrng, grng = rng.fork('c12-breaks'), rng.fork('c12-relations'), rng.fork('c12-growing')
-    nb, nr, ng = max(2, n // 6), max(3, n // 3), max(3, n // 9)
+    nb, nr, ng = max(2, n // 6), max(4, n * 4 // 9), max(3, n // 9)
     bprobs = [e2e.gen_checked_problem(brng, features=('breaks',) + tuple(f for f in e2e.FEATURES if brng.chance(1, 4)))
               for _ in range(nb + nb // 3 + 1)]
-    rprobs = e2e.gen_relation_problems(rrng, nr + nr // 3 + 1, solver=_solve_all, tweak=_more_services(rrng), derive=_rel_derive)
+    # three times as many relation problems as pairs are wanted: the pairs in which a SERVICE job of an `any` relation can be moved
+    # to the tour of another vehicle (`_svc_any_sites`, seeded change C12-4) are taken first
+    rprobs = e2e.gen_relation_problems(rrng, 4 * nr + 4, solver=_solve_all, tweak=_more_services(rrng), derive=_rel_derive)
     # tours whose load GROWS up to the last stop of a load interval (seeded change C12-3: capacity compared at the `from` stop of
     # every leg only): open-ended last shifts, most single deliveries turned into static pickups, reloads on half of them
     gprobs = [_growing(grng, e2e.gen_checked_problem(grng, features=('reloads',) if grng.chance(1, 2) else ()))
@@ -127,7 +129,21 @@ def generate(rng, tier, n):
     k3 = k2 + len(rprobs)
     take(probs, sols[:k1], n, CAP.get(tier, 3), 0)
     take(bprobs, sols[k1:k2], nb, CAP.get(tier, 3), 0)
-    take(rprobs, sols[k2:k3], nr, CAP.get(tier, 3), 0)
+    # which relation pairs: half of them offer the site "service job of an `any` relation moves to another vehicle's tour", a
+    # quarter an ORDER breach of a SEQUENCE relation, the rest come in the generated order
+    rel = [(p, r) for p, r in zip(rprobs, sols[k2:k3])
+           if isinstance(r, dict) and 'solution' in r and not e2e.unsupported(p, r['solution'])]
+    rsites = [_rel_sites(p, r['solution']) for p, r in rel]
+    is_a = [any(m['op'] == 'MRelTour' and m.get('d') == 1 for m in ms) for ms in rsites]
+    is_b = [any(m['op'] == 'MRelShift' and m['f'] == 1 and p['problem']['plan']['relations'][m['r']]['type'] == 'sequence' for m in ms)
+            for (p, _), ms in zip(rel, rsites)]
+    chosen = [i for i in range(len(rel)) if is_a[i]][:nr // 2]
+    chosen += [i for i in range(len(rel)) if is_b[i] and i not in chosen][:nr // 4]
+    is_c = [any(m['op'] == 'MRelShift' and p['problem']['plan']['relations'][m['r']]['type'] == 'strict' for m in ms)
+            for (p, _), ms in zip(rel, rsites)]
+    chosen += [i for i in range(len(rel)) if is_c[i] and i not in chosen][:nr // 8]
+    chosen += [i for i in range(len(rel)) if i not in chosen][:max(0, nr - len(chosen))]
+    take([rel[i][0] for i in chosen], [rel[i][1] for i in chosen], nr, CAP.get(tier, 3), 0)
     take(gprobs, sols[k3:], ng, CAP.get(tier, 3), 0)
     return cases
 
@@ -136,12 +152,24 @@ def _more_services(rng):
     """base problems of the relation batch get more SERVICE jobs (a third of the single deliveries / pickups lose their demand):
     the `any` rule of relations.rs has to see service activities in the tours of other vehicles too (seeded change C12-4)"""
     def tweak(p):
+        singles = []
         for j in p['problem']['plan']['jobs']:
             keys = [k for k in ('pickups', 'deliveries', 'replacements', 'services') if j.get(k)]
-            if len(keys) == 1 and keys[0] in ('pickups', 'deliveries') and len(j[keys[0]]) == 1 and rng.chance(1, 2):
-                t = j.pop(keys[0])[0]
-                t.pop('demand', None)
-                j['services'] = [t]
+            if len(keys) == 1 and keys[0] in ('pickups', 'deliveries') and len(j[keys[0]]) == 1:
+                singles.append((j, keys[0]))
+        chosen = [x for x in singles if rng.chance(1, 2)]
+        nsvc = sum(1 for j in p['problem']['plan']['jobs'] if j.get('services') and len(e2e.tasks_of(j)) == 1)
+        for x in singles:                                  # at least two single service jobs where the plan allows it
+            if nsvc + len(chosen) < 2 and x not in chosen:
+                chosen.append(x)
+        for j, key in chosen:
+            t = j.pop(key)[0]
+            t.pop('demand', None)
+            j['services'] = [t]
+        # ... and at least two vehicles, so that "the tour of another vehicle" can exist
+        vs = p['problem']['fleet']['vehicles']
+        if sum(len(v['vehicleIds']) for v in vs) < 2:
+            vs[0]['vehicleIds'].append('%s_2' % vs[0]['typeId'])
         return p
     return tweak
 
@@ -152,32 +180,59 @@ def _rel_derive(rng, p, s):
     # a strict relation without anchors is also a valid SEQUENCE relation (the weaker rule): a third of them are turned into one,
     # so that sequence relations with several jobs are frequent enough for the order breach
     for r in rels:
-        if r['type'] == 'strict' and not any(x in ('departure', 'arrival') for x in r['jobs']) and rng.chance(1, 3):
+        if r['type'] == 'strict' and not any(x in ('departure', 'arrival') for x in r['jobs']) and rng.chance(1, 2):
             r['type'] = 'sequence'
     have = {(r['vehicleId'], r.get('shiftIndex') or 0): r for r in rels}
     jobs = {j['id']: j for j in p['problem']['plan']['jobs']}
-    for t in s.get('tours') or []:
-        key = (t['vehicleId'], t.get('shiftIndex', 0))
-        if key in have and have[key]['type'] != 'any':
-            continue
-        svc = []
+    tours = s.get('tours') or []
+
+    def services(t):
+        """single SERVICE jobs of the tour that may be named by a relation (one place, at most one window: E1203)"""
+        out = []
         for st in t['stops']:
             for a in st['activities']:
                 j = jobs.get(a.get('jobId'))
                 if a.get('type') == 'service' and j is not None and len(e2e.tasks_of(j)) == 1:
                     pl = j['services'][0]['places']
-                    if len(pl) == 1 and len(pl[0].get('times') or []) <= 1:
-                        svc.append(a['jobId'])
-        if not svc:
+                    if len(pl) == 1 and len(pl[0].get('times') or []) <= 1 and a['jobId'] not in out:
+                        out.append(a['jobId'])
+        return out
+
+    def name_services(r, svc):
+        for x in svc[:2]:
+            if x not in r['jobs']:
+                r['jobs'].append(x)
+    for t in tours:
+        key = (t['vehicleId'], t.get('shiftIndex', 0))
+        svc = services(t)
+        if not svc or (key in have and have[key]['type'] != 'any'):
             continue
-        if key in have:                   # an `any` relation of this tour: it also names one of the tour's service jobs
-            if not any(x in svc for x in have[key]['jobs']):
-                have[key]['jobs'].append(rng.choice(svc))
+        if key in have:                   # an `any` relation of this tour: it also names service jobs of the tour
+            name_services(have[key], svc)
         else:
-            rel = {'type': 'any', 'vehicleId': t['vehicleId'], 'jobs': [rng.choice(svc)]}
+            rel = {'type': 'any', 'vehicleId': t['vehicleId'], 'jobs': []}
+            name_services(rel, svc)
             if key[1] != 0:
                 rel['shiftIndex'] = key[1]
             rels.append(rel)
+            have[key] = rel
+    # EVERY relation problem gets an `any` relation with a service job where the base solution allows it: when none came out
+    # above, the relation of a tour that serves one (preferably while another vehicle has a tour too) is weakened to `any` - the
+    # jobs of a sequence / strict relation taken from a solution are a consistent `any` relation as well - and names it
+    def has_any_service(r):
+        return r['type'] == 'any' and any(jobs.get(x) is not None and jobs[x].get('services') and len(e2e.tasks_of(jobs[x])) == 1
+                                          for x in r['jobs'])
+    if not any(has_any_service(r) for r in rels):
+        # (never a sequence / strict relation with two or more jobs: those carry the order / contiguity breach sites)
+        cands = [t for t in tours if services(t)
+                 and len({x for x in have[(t['vehicleId'], t.get('shiftIndex', 0))]['jobs'] if x not in ('departure', 'arrival')}) < 2]
+        cands.sort(key=lambda t: 0 if any(o['vehicleId'] != t['vehicleId'] for o in tours) else 1)
+        if cands:
+            t = cands[0]
+            r = have[(t['vehicleId'], t.get('shiftIndex', 0))]
+            r['type'] = 'any'
+            r['jobs'] = [x for x in r['jobs'] if x not in ('departure', 'arrival')]
+            name_services(r, services(t))
     return rels
 
 
@@ -444,6 +499,10 @@ def rel_viols_py(rels, sol):
     return sorted(set(out))
 
 
+def _svc_any_sites(p, s):
+    return [m for m in _rel_sites(p, s) if m['op'] == 'MRelTour' and m.get('d') == 1]
+
+
 def _rel_sites(p, s):
     """breach sites for the relations of the plan: MRelTour (a stop with a pinned job moves to another tour) and MRelShift (a stop
     moves inside its tour), kept when the twin of rel_viols says the breached document violates a relation; 'f' = sub-class
@@ -464,7 +523,17 @@ def _rel_sites(p, s):
         cands = []
         for si in movable:
             if any(_is_job(a) and a['jobId'] in ids for a in stops[si]['activities']):
-                cands += [{'op': 'MRelTour', 'k': k, 's': si, 'k2': k2} for k2 in range(len(tours)) if k2 != k]
+                for k2 in range(len(tours)):
+                    if k2 == k:
+                        continue
+                    m = {'op': 'MRelTour', 'k': k, 's': si, 'k2': k2}
+                    # own bucket ('d': 1, not part of the Coq term): a SERVICE (or replacement) job of an `any` relation moves to
+                    # the tour of ANOTHER VEHICLE - relations.rs has to find non-pickup / non-delivery activities there too
+                    if r['type'] == 'any' and tours[k2].get('vehicleId') != r['vehicleId'] and \
+                            any(a.get('type') in ('service', 'replacement') and a['jobId'] in ids for a in stops[si]['activities']) \
+                            and not any(a.get('type') in ('pickup', 'delivery') and a['jobId'] in ids for a in stops[si]['activities']):
+                        m['d'] = 1
+                    cands.append(m)
         fixed_last = any(a.get('type') == 'arrival' for a in stops[-1]['activities'])
         for si in movable:
             cands += [{'op': 'MRelShift', 'k': k, 's': si, 's2': s2}
@@ -1153,6 +1222,8 @@ def classify(c, impl):
             'tours=%d' % len(s.get('tours') or []), 'unassigned=%s' % ('0' if not s.get('unassigned') else '1+')]
     if m is not None:
         labs.append('class=' + mut_class(m, s))
+        if m['op'] == 'MRelTour' and m.get('d') == 1:
+            labs.append('relation_breach=any/service-job-moved')
     return labs
 
 
